@@ -77,6 +77,7 @@ class Cfg:
         self.device_only_extra = 0.0
         self.filler = 0            # extra small host operators early in file order: event ids beyond 127 / 255
         self.corr_start = None     # all ranks count correlation ids from the same number (ids collide across ranks)
+        self.tid_base = 100        # host thread ids are tid_base + rank and 2 * tid_base + rank
         self.__dict__.update(kw)
 
     def to_json(self) -> Dict[str, Any]:
@@ -103,6 +104,7 @@ def draw_cfg(rng: random.Random, **force: Any) -> Cfg:
     c.pre_post = rng.random() < 0.7
     c.filler = rng.choice([130, 260]) if rng.random() < 0.08 else 0
     c.corr_start = rng.choice([None, None, 1, 100])
+    c.tid_base = rng.choice([100] * 12 + [3, 2, 1, 50000])
     c.__dict__.update(force)
     return c
 
@@ -299,8 +301,8 @@ class RankSim:
 
     def run(self) -> List[Dict[str, Any]]:
         rng, cfg = self.rng, self.cfg
-        main_tid = 100 + self.rank
-        bwd_tid = 200 + self.rank
+        main_tid = self.cfg.tid_base + self.rank
+        bwd_tid = 2 * self.cfg.tid_base + self.rank
         main_streams = self.stream_ids[: cfg.nstreams]
         t = self.g * rng.choice([0, 0, 3])
         t_begin = t
@@ -396,14 +398,14 @@ def simulate_rank(rng: random.Random, cfg: Cfg, rank: int) -> List[Dict[str, Any
             break
     else:
         ev.insert(0, {"ph": "X", "cat": "cpu_op", "name": "aten::empty", "pid": sim.host_pid,
-                      "tid": 100 + rank, "ts": cfg.offset + (max([x["ts"] + x["dur"] for x in ev], default=0) - cfg.offset) + 5 * cfg.grid,
+                      "tid": cfg.tid_base + rank, "ts": cfg.offset + (max([x["ts"] + x["dur"] for x in ev], default=0) - cfg.offset) + 5 * cfg.grid,
                       "dur": cfg.grid})
     if cfg.filler:
         # many small operators after everything else in time but early in the file: the ids of the interesting
         # events exceed the range of the narrow integer types the parser may pick for small values
         hi = max(e["ts"] + e["dur"] for e in ev) + 2 * cfg.grid
         fill = [{"ph": "X", "cat": "cpu_op", "name": rng.choice(["aten::fill_", "aten::zero_", "aten::empty"]), "pid": sim.host_pid,
-                 "tid": 100 + rank, "ts": hi + 2 * k * cfg.grid, "dur": cfg.grid} for k in range(cfg.filler)]
+                 "tid": cfg.tid_base + rank, "ts": hi + 2 * k * cfg.grid, "dur": cfg.grid} for k in range(cfg.filler)]
         ev[1:1] = fill
     if cfg.noise:
         lo = min(e["ts"] for e in ev)
